@@ -241,8 +241,10 @@ SHAPES = {
     "offstart": [[(30, -20, None), (70, -20, None), (100, 0, "curve"), (100, 60.5, "line"),
                   (0, 60, "line"), (0, 0, "line")]],
     # large coordinates
-    "large": [[(-16384, -16384, "line"), (16383.5, -16384, "line"), (16383.5, 16383.5, "line"),
-               (-16384, 16383.5, "line")]],
+    # (head/hhea fields are int16 and CFF deltas must stay below 32768: keep |coord| <= 16383.5,
+    #  used with rigid / shrinking transforms only)
+    "large": [[(-16383, -16383, "line"), (16383.5, -16383, "line"), (16383.5, 16382.5, "line"),
+               (-16383, 16382.5, "line")]],
 }
 
 # transforms (xx, xy, yx, yy, dx, dy); all entries dyadic so compositions are exact in binary64
